@@ -130,6 +130,7 @@ func (c *bridgeChecks) before(r *Run, s *Step) {
 		}
 	}
 	c.c04.before(r, s)
+	c.c05.before(r)
 	c.c13.before(r, s)
 }
 
